@@ -601,6 +601,7 @@ class CoqBatch:
         self.max_bytes = max_bytes
         self.max_cases = max_cases
         self.times = []
+        self.workers = JOBS
 
     def add(self, defs, cases):
         """defs: Coq vernacular text; cases: list of (kind, label, payload, boolexpr)"""
@@ -628,7 +629,7 @@ class CoqBatch:
             self.times.append((round(time.time() - t0, 1), len(flat), flat[0][1][:40]))
             return ok, [flat[i][:3] for i in failing], log, len(flat)
         ok_all, failing, logs, n = True, [], [], 0
-        with cf.ThreadPoolExecutor(max_workers=JOBS) as ex:
+        with cf.ThreadPoolExecutor(max_workers=self.workers) as ex:
             for ok, fl, log, k in ex.map(one, range(len(jobs))):
                 ok_all &= ok
                 failing += fl
@@ -1359,6 +1360,8 @@ def run(ck):
     quick = ck.tier == 'quick'
     rng = random.Random(f'{ck.seed}:c06')
     batch = CoqBatch()
+    if not quick and 'VERIF_JOBS' not in os.environ:
+        batch.workers = max(JOBS, min(12, os.cpu_count() or 4))     # thorough: ~1500 case files
     INVALID.clear()
     CE_CLASS.clear()
     GAP_TAGS.clear()
